@@ -35,7 +35,7 @@ func init() {
 	register("c17.run", func(a []string) string { return admRun(a) })
 }
 
-const admWait = 6 * time.Second
+const admWait = 20 * time.Second // only ever used up on a broken tree or a badly overloaded machine (a loopback dial + accept normally takes well under a millisecond)
 
 // once several expected effects have failed to appear (a broken tree), stop
 // spending the full wait on every further one
